@@ -87,6 +87,20 @@ def shift(ctx, P, views, iters):
 def off_duty(ctx, P, views, iters):
     ob = ctx.ob("OFFD", "take_servers_off_duty: non-pre-emptive -> busy servers marked offduty (not killed), idle ones killed; pre-emptive -> every busy server's customer interrupted")
     done = set()
+    # who may write the off-duty mark: the constructor of a server (False) and the end of a shift (True).  A server working overtime that gets the mark taken
+    # away stays on the node after its customer leaves: one more server on duty than the timetable says, until the next shift change.
+    nw = 0
+    for ci, fn, node, recv, how in rules.attr_writes(P, "offduty"):
+        nw += 1
+        names_ = set(rules.effective_names(P, ci, fn)) if ci is not None else {fn.name}
+        val = unparse(node.value) if isinstance(node, ast.Assign) else "?"
+        ob.ok("offduty-writer:%s" % rules.qual(ci, fn), "%s: %s" % (rules.qual(ci, fn), unparse(node)[:60]))
+        okw = (names_ == {"__init__"} and val == "False" and recv == "self") or (names_ <= {"take_servers_off_duty"} and val == "True")
+        if not okw:
+            ctx.violation(ob, "R1.offduty-writer", rules.qual(ci, fn), unparse(node)[:80], "offduty-written-elsewhere",
+                          "the off-duty mark is set at the end of a shift and never taken back: written here, a server that should leave with its customer stays on duty "
+                          "(or one on duty is dropped)", loc(node))
+    ctx.floor("writes of the off-duty mark", nw, 2)
     for view in views:
         cls, fn = view.method("take_servers_off_duty")
         for lit, name in (("False", "non-preemptive"), ("'resume'", "preemptive")):
